@@ -85,7 +85,9 @@ func devUnit(args []string) {
 				fmt.Println("        src:", r.Ob.Src)
 				if dump {
 					fmt.Println(r.Res.Output)
-					os.WriteFile("/tmp/fail.smt2", []byte(u.Script(r.Ob, r.FailPart)), 0o644)
+					if sel := os.Getenv("GOVC_DUMPOB"); sel == "" || strings.Contains(r.Ob.Name, sel) {
+						os.WriteFile("/tmp/fail.smt2", []byte(u.Script(r.Ob, r.FailPart)), 0o644)
+					}
 				}
 			}
 		}
